@@ -477,10 +477,14 @@ class Client(ClientLike):
             elif mt not in sub_list:
                 sub_list.append(mt)
         msg_list = sub_list
+        # types that are paused on entry go back to paused (not unsubscribed) on exit
+        was_paused = [mt for mt in msg_list if mt in self.paused_subscribed_types]
 
         self.subscribe(msg_list)
         yield
-        self.unsubscribe(msg_list)
+        self.unsubscribe([mt for mt in msg_list if mt not in was_paused])
+        if was_paused:
+            self.pause_subscription(was_paused)
 
     @contextmanager
     def paused_subscription_context(self, msg_list: Iterable[int]):
